@@ -217,6 +217,8 @@ Lemma in_deleted_keys k c D :
   In k (deleted_keys c D) <-> exists r, In r D /\ In k (row_del_keys c r).
 Proof. unfold deleted_keys. apply in_flat_map. Qed.
 
+Ltac solve_or := solve [ reflexivity | left; solve_or | right; solve_or ].
+
 Lemma in_row_del_keys k c r :
   In k (row_del_keys c r) <->
   match k with
@@ -246,6 +248,6 @@ Proof.
     try (right; left; reflexivity);
     try (right; right; left; reflexivity);
     try (right; right; right; left; reflexivity);
-    try (right; right; right; right; left; reflexivity).
-  Show.
+    try (right; right; right; right; left; reflexivity);
+    solve_or.
 Qed.
